@@ -12,6 +12,7 @@ pub mod c09;
 pub mod c10;
 pub mod c11;
 pub mod c12;
+pub mod c13;
 pub mod c20;
 
 pub fn property(id: &str) -> Option<Property> {
@@ -28,6 +29,7 @@ pub fn property(id: &str) -> Option<Property> {
         "C10" => Some(c10::property()),
         "C11" => Some(c11::property()),
         "C12" => Some(c12::property()),
+        "C13" => Some(c13::property()),
         "C20" => Some(c20::property()),
         _ => None,
     }
